@@ -142,7 +142,7 @@ struct HCpca : Harness {
       LVec ts(n), tp(n); for (int i = 0; i < n; i++) { ts[i] = M.super_scores[i][k]; tp[i] = pa.scores[i][k]; }
       LD sgn = ldot(ts, tp) < 0 ? -1 : 1, d = 0, tn = lnorm(tp);
       for (int i = 0; i < n; i++) d += (ts[i] - sgn * tp[i]) * (ts[i] - sgn * tp[i]);
-      double tolk = 3 * tol.sin_angle[k] + 1e-8;
+      double tolk = 3 * tol.score_rel[k] + 1e-8;
       if (sqrtl(d) > tolk * (tn + 1e-300L)) { char m[260]; snprintf(m, sizeof m, "super score %d differs from the PCA score of the block-scaled concatenation: relative difference %.3Lg (allowed %.3g), scaling %d, widths %s", k, sqrtl(d) / tn, tolk, scaling, p.get("widths").c_str()); o.fail("super-score-not-pca-score", m); }
       LD want = pa.varexp[k];
       if (!o.violation && fabsl((LD)M.total_expvar[k] - want) > 2 * tol.eval_rel[k] * fabsl(want) + 1e-9L) { char m[200]; snprintf(m, sizeof m, "total explained variance %d is %.8g, the PCA of the concatenation has %.8Lg", k, M.total_expvar[k], want); o.fail("total-variance-not-pca", m); }
